@@ -76,7 +76,7 @@ fn insert_step<const N: usize>() {
         assert!(d.largest() == if pos < N as u64 { off + N as u64 } else { idx + 1 });
     }
     kani::cover!(r == Ok(None) && idx > off + N as u64, "insert beyond the end with placeholders");
-    kani::cover!(matches!(r, Ok(Some(_))), "replace inside");
+    kani::cover!(N == 0 || matches!(r, Ok(Some(_))), "replace inside");
     kani::cover!(matches!(r, Err(IndexError::TooSmall(..))), "too small");
     core::mem::forget(d);
 }
